@@ -27,7 +27,7 @@ REQUIRED_COUNTERS = ['orders_checked', 'permutations_checked']
 D = decimal.Decimal
 CLASSES = ['int', 'float', 'decimal', 'mixed', 'huge', 'highprec', 'negzero', 'text', 'text_unicode',
            'num_num', 'num_text', 'text_num', 'text_text', 'fmt_pad', 'fmt_sep', 'callable', 'multi_resource', 'overflow',
-           'nan_present']
+           'nan_present', 'infinite']
 
 
 def gen_cases(tier, seed):
@@ -60,6 +60,9 @@ def keyval(rng, c):
     if c == 'nan_present':
         # NaN has no place in the order; the other keys still have theirs and nothing may fail
         return rng.choice([D('NaN'), float('nan'), 1, 2.5, D('-3'), 0, D('7.25')])
+    if c == 'infinite':
+        # the Table Schema numbers INF / -INF (Decimal as the library casts them, float as user code computes them)
+        return rng.choice([D('-Infinity'), D('Infinity'), float('inf'), float('-inf'), D('5'), D('-100'), 1, 0, 2.5])
     if c == 'overflow':
         # integers are unbounded: values beyond the float64 range are valid integer cells
         return rng.choice([10 ** 400, -10 ** 400, 10 ** 400 + 1, 3, -3, 0])
@@ -177,7 +180,7 @@ def run_case(case):
     batch = rng.choice([1, 2, 7, 1000]) if n <= 1000 else rng.choice([7, 1000])
     # key fields + typed key function
     if c in ('int', 'float', 'decimal', 'mixed', 'huge', 'highprec', 'negzero', 'text', 'text_unicode', 'overflow',
-             'nan_present'):
+             'nan_present', 'infinite'):
         rows = [{'id': i, 'k': keyval(rng, c)} for i in range(n)]
         form = rng.choice(['fmt', 'list', 'tuple'])
         key = {'fmt': '{k}', 'list': ['k'], 'tuple': ('k',)}[form]
@@ -217,6 +220,16 @@ def run_case(case):
         form = 'callable'
         key = lambda row: '%s/%04d' % (row['t'], row['k'])                 # noqa: E731
         tkey = lambda r: ('%s/%04d' % (r['t'], r['k']),)                   # noqa: E731
+    if not callable(key) and c != 'nan_present' and rows and 'k' in rows[0] and \
+            boot.rng(case['seed'], 'C12', 'oddname', c, case['idx']).random() < 0.25:
+        # the key field has a name that is not an identifier ('unit price', 'net-weight', 'growth %'): a name like any other
+        odd = rng.choice(['unit price', 'net-weight', 'growth %'])
+        for r in rows:
+            r[odd] = r.pop('k')
+        key = key.replace('{k', '{' + odd) if isinstance(key, str) else type(key)(odd if x == 'k' else x for x in key)
+        inner_tkey = tkey
+        tkey = lambda r, inner_tkey=inner_tkey, odd=odd: inner_tkey(dict(r, k=r[odd]))      # noqa: E731
+        cov['class_x_form']['%s/%s/key_field_name_not_an_identifier' % (c, form)] = 1
     cov['class_x_form']['%s/%s' % (c, form)] = 1
     cov['regime']['spill' if n > 10240 else 'memory'] = 1
     cfg = {'class': c, 'form': form, 'key': key if not callable(key) else 'callable', 'n': n,
